@@ -11,6 +11,13 @@
  *              B Resent-Bcc  r other Resent-*  s sender-type field  A command-line recipients;  mbox = <local hex>/<host hex|~>
  *     … <exit> <sender hex> <recips|-> <message hex> <exit2> <recips2|->
  *        exit2/recips2 = the message produced by the first run injected again with -h (the re-parse of the rewritten header)
+ *   B <stdin hex>   … <rc> <order> <fields hex,hex…|-> <body pieces hex,hex…|->
+ *        the real headerbody() (headerbody.c + getln.c) called directly with recording callbacks; order = 1 iff hdone was
+ *        called exactly once, after every dohf and before every dobl.  Every I case also emits the B line of its stdin.
+ *   W <texts hex,hex…|-> <tail hex|->   … <rc> <order> <fields> <body pieces>
+ *        a message built BY CONSTRUCTION from well-formed field texts (one logical line each, valid name, not a From line)
+ *        followed by nothing or by an empty line and arbitrary bytes: headerbody() must return exactly these texts (C17_headerbody_wellformed)
+ *   optional 6th argument: length bound of the exhaustive B enumeration over the pieces LF SP TAB a : b "From " (default 5)
  */
 #include "hcommon.h"
 #include <time.h>
@@ -116,9 +123,115 @@ static int run_inject(icase *c, const unsigned char *inp, size_t n, int second) 
   return h_exitcode;
 }
 
+
+/* ---- B lines: headerbody() itself ---- */
+static hbuf b_fields, b_body; static int b_nf, b_nb, b_state, b_hdone_n, b_bad;
+static void b_item(hbuf *b, int *n, stralloc *sa) {
+  static const char d[] = "0123456789abcdef";
+  if ((*n)++) hbuf_add(b, ",", 1);
+  if (!sa->len) hbuf_add(b, "e", 1);
+  for (unsigned int i = 0; i < sa->len; i++) { char x[2] = { d[(unsigned char)sa->s[i] >> 4], d[sa->s[i] & 15] }; hbuf_add(b, x, 2); }
+}
+static void b_dohf(stralloc *h) { if (b_state != 0) b_bad = 1; b_item(&b_fields, &b_nf, h); }
+static void b_hdone(void) { if (b_state != 0) b_bad = 1; b_state = 1; b_hdone_n++; }
+static void b_dobl(stralloc *h) { if (b_state != 1) b_bad = 1; b_item(&b_body, &b_nb, h); }
+static void run_hb(const unsigned char *inp, size_t n) {
+  hbuf_reset(&b_fields); hbuf_reset(&b_body); b_nf = b_nb = b_state = b_hdone_n = b_bad = 0;
+  in_p = inp; in_n = n; in_pos = 0;
+  substdio_fdbuf(&my_in, in_read, 0, my_inbuf, sizeof my_inbuf);
+  int rc = headerbody(&my_in, b_dohf, b_hdone, b_dobl);
+  fputs("B ", h_out); h_hex(inp, n);
+  fprintf(h_out, " %d %d ", rc, (!b_bad && b_hdone_n == 1) ? 1 : 0);
+  if (b_nf) fwrite(b_fields.p, 1, b_fields.n, h_out); else fputc('-', h_out);
+  fputc(' ', h_out);
+  if (b_nb) fwrite(b_body.p, 1, b_body.n, h_out); else fputc('-', h_out);
+  fputc('\n', h_out);
+}
+
+/* exhaustive: every sequence of at most `len` pieces */
+static const char *b_piece[] = { "\n", " ", "\t", "a", ":", "b", "From " };
+#define B_NP 7
+static void gen_hb_exhaustive(int len, int shard, int nshards) {
+  uint64_t id = 0;
+  for (int L = 0; L <= len; L++) {
+    uint64_t total = 1; for (int i = 0; i < L; i++) total *= B_NP;
+    for (uint64_t k = 0; k < total; k++, id++) {
+      if ((int)(id % nshards) != shard) continue;
+      unsigned char buf[64]; size_t n = 0; uint64_t v = k;
+      for (int i = 0; i < L; i++) { const char *p = b_piece[v % B_NP]; v /= B_NP; size_t l = strlen(p); memcpy(buf + n, p, l); n += l; }
+      run_hb(buf, n);
+    }
+  }
+}
+/* random: lines from a pool (field starts, continuations, From lines, empty lines, junk), odd bytes, missing final LF */
+static void gen_hb_random(void) {
+  static hbuf m; hbuf_reset(&m);
+  static const char *pool[] = { "To: a@b\n", "Cc: c@d,\n", " e@f\n", "\tg@h\n", "\n", "From x\n", "From: y\n", "From \n", "From", "garbage\n",
+    "x y: z\n", "a :b\n", ":\n", "a\t :\n", "MBOX-Line: From z\n", "Bcc: s@t\n", " \n", "\t\n", "Subject: hi\n", "A:", "a:\n", "\x80:\n", "a\x7f:\n", "!~:\n",
+    "Fro: m\n", "from x\n", " From x\n", "k" };
+  int nl = h_below(9);
+  for (int i = 0; i < nl; i++) {
+    if (h_below(12) == 0) { int k = 1 + h_below(6); for (int j = 0; j < k; j++) g_c(&m, h_below(4) ? "\n \t:aF"[h_below(7)] : (int)h_below(256)); }
+    else g_s(&m, pool[h_below(sizeof pool / sizeof *pool)]);
+  }
+  if (m.n && h_below(6) == 0) m.n--;            /* drop the last byte: often an unterminated last line */
+  if (h_below(40) == 0) { int k = 300 + h_below(300); for (int j = 0; j < k; j++) g_c(&m, 'l'); if (h_below(2)) g_s(&m, ": v\n more\n\nb"); }   /* longer than the 256-byte buffer */
+  run_hb(m.p, m.n);
+}
+
+/* W lines: message = well-formed field texts ++ (nothing | LF ++ anything) */
+static void run_hbw(hbuf *texts, int ntexts, const unsigned char *msg, size_t n, const unsigned char *tail, size_t tn) {
+  hbuf_reset(&b_fields); hbuf_reset(&b_body); b_nf = b_nb = b_state = b_hdone_n = b_bad = 0;
+  in_p = msg; in_n = n; in_pos = 0;
+  substdio_fdbuf(&my_in, in_read, 0, my_inbuf, sizeof my_inbuf);
+  int rc = headerbody(&my_in, b_dohf, b_hdone, b_dobl);
+  fputs("W ", h_out);
+  if (ntexts) fwrite(texts->p, 1, texts->n, h_out); else fputc('-', h_out);
+  fputc(' ', h_out); h_hex(tail, tn);
+  fprintf(h_out, " %d %d ", rc, (!b_bad && b_hdone_n == 1) ? 1 : 0);
+  if (b_nf) fwrite(b_fields.p, 1, b_fields.n, h_out); else fputc('-', h_out);
+  fputc(' ', h_out);
+  if (b_nb) fwrite(b_body.p, 1, b_body.n, h_out); else fputc('-', h_out);
+  fputc('\n', h_out);
+}
+static void hexadd(hbuf *b, const unsigned char *p, size_t n) {
+  static const char d[] = "0123456789abcdef";
+  for (size_t i = 0; i < n; i++) { char x[2] = { d[p[i] >> 4], d[p[i] & 15] }; hbuf_add(b, x, 2); }
+}
+static void gen_hb_wellformed(void) {
+  static hbuf m, tx, one, tl; hbuf_reset(&m); hbuf_reset(&tx); hbuf_reset(&tl);
+  static const char *names[] = { "To", "cc", "BCC", "Subject", "X-y", "Received", "From", "From\t", "MBOX-Line", "a", "!#$%&'*+-./09;<=>?@AZ[\\]^_`az{|}~", "Resent-To " };
+  static const char *frag[] = { " a@b", "", "x", " \"q\" <u@h>,", "(c) d", ":", "::", "\t", " From x", "\x80\xff", "\r", "Bcc: z" };
+  int nt = h_below(5);
+  for (int i = 0; i < nt; i++) {
+    hbuf_reset(&one);
+    g_s(&one, names[h_below(sizeof names / sizeof *names)]);
+    if (h_below(4) == 0) g_c(&one, ' ');
+    g_c(&one, ':');
+    g_s(&one, frag[h_below(sizeof frag / sizeof *frag)]);
+    int nc = h_below(3) ? 0 : 1 + h_below(3);
+    for (int j = 0; j < nc; j++) { g_c(&one, '\n'); g_c(&one, h_below(2) ? ' ' : '\t'); if (h_below(5)) g_s(&one, frag[h_below(sizeof frag / sizeof *frag)]); }
+    g_c(&one, '\n');
+    if (i) hbuf_add(&tx, ",", 1);
+    hexadd(&tx, one.p, one.n);
+    hbuf_add(&m, one.p, one.n);
+  }
+  uint32_t k = h_below(6);
+  if (k) {                                       /* k == 0: no body at all */
+    g_c(&tl, '\n');
+    if (k == 2) g_s(&tl, "body\nTo: x@y\n");
+    else if (k == 3) g_s(&tl, " indented\n\n\nlast line without LF");
+    else if (k == 4) g_s(&tl, "\nTo: after@two.blank\n");
+    else if (k == 5) { int q = h_below(12); for (int j = 0; j < q; j++) g_c(&tl, h_below(3) ? "\n :aF\t"[h_below(6)] : (int)h_below(256)); }
+  }
+  if (tl.n) hbuf_add(&m, tl.p, tl.n);
+  run_hbw(&tx, nt, m.p, m.n, tl.p, tl.n);
+}
+
 static void print_field(const char *s) { if (!s) fputc('~', h_out); else h_hex((const unsigned char *)s, strlen(s)); }
 
 static void run_case(icase *c, const unsigned char *inp, size_t n, const char *E) {
+  run_hb(inp, n);
   fprintf(h_out, "I %s %c%s ", (c->flags && *c->flags) ? c->flags : "-", c->strat, c->nflag ? "n" : "");
   if (c->fsender) h_hex((unsigned char *)c->fsender, strlen(c->fsender)); else fputc('N', h_out);
   fputc(' ', h_out);
@@ -332,6 +445,16 @@ int main(int argc, char **argv) {
   if (argc > 1 && !strcmp(argv[1], "-")) {
     static char line[600000], f[8][300000];
     while (fgets(line, sizeof line, stdin)) {
+      if (line[0] == 'B' && line[1] == ' ') { static unsigned char binp[150000]; char *h = strtok(line + 2, " \r\n"); int n = h ? unhexs(h, (char *)binp) : 0; run_hb(binp, n); continue; }
+      if (line[0] == 'W' && line[1] == ' ') {
+        static unsigned char wm[150000], wt[150000], wone[150000]; static hbuf tx; hbuf_reset(&tx);
+        char *a = strtok(line + 2, " \r\n"), *b = strtok(0, " \r\n"); if (!a || !b) continue;
+        static char acopy[300000]; strncpy(acopy, a, sizeof acopy - 1);
+        size_t mn = 0; int nt = 0;
+        if (strcmp(a, "-")) { hbuf_add(&tx, acopy, strlen(acopy)); for (char *p = strtok(a, ","); p; p = strtok(0, ",")) { int k = unhexs(p, (char *)wone); memcpy(wm + mn, wone, k); mn += k; nt++; } }
+        int tn = unhexs(b, (char *)wt); memcpy(wm + mn, wt, tn);
+        run_hbw(&tx, nt, wm, mn + tn, wt, tn); continue;
+      }
       if (line[0] != 'I') continue;
       if (sscanf(line + 1, "%s %s %s %s %s %s %s", f[0], f[1], f[2], f[3], f[4], f[5], f[6]) != 7) continue;
       icase c; memset(&c, 0, sizeof c);
@@ -350,10 +473,13 @@ int main(int argc, char **argv) {
   int nstruct = h_argi(argc, argv, 1, 1000), nmal = h_argi(argc, argv, 2, 1000);
   uint64_t seed = (uint64_t)h_argi(argc, argv, 3, 1);
   int shard = h_argi(argc, argv, 4, 0), nshards = h_argi(argc, argv, 5, 1);
+  gen_hb_exhaustive(h_argi(argc, argv, 6, 5), shard, nshards);
   for (uint64_t k = 0; k < 7 * 4 * 2 * 2 * 2 * 4; k++) if ((int)(k % nshards) == shard) gen_systematic(k);
   h_seed(seed * 7000003ull + shard);
   for (int r = 0; r < nstruct; r++) if ((r % nshards) == shard) gen_structured(r);
   for (int r = 0; r < nmal; r++) if ((r % nshards) == shard) gen_malformed(r);
+  for (int r = 0; r < nmal; r++) if ((r % nshards) == shard) gen_hb_random();
+  for (int r = 0; r < nmal; r++) if ((r % nshards) == shard) gen_hb_wellformed();
   fflush(h_out);
   return 0;
 }
